@@ -263,3 +263,11 @@ def run(P: Program, R: Report, tier: str) -> None:
     from .memo import no_stale_memo
 
     no_stale_memo(P, R, "R09.8")
+    # ---- R09.9 (= R10.6) enabling with recomputation computes every requested key, also one that was registered before
+    from .c10 import enable_recomputes_requested
+
+    enable_recomputes_requested(P, R, "R09.9")
+    # ---- R09.10 the IoU write kernel writes every edge it is handed (no early exit past the catch-all loop)
+    from .annot import total_write
+
+    total_write(P, R, P.class_named("EdgeAnnotator"), "R09.10")
